@@ -848,7 +848,8 @@ impl<'w, 'r, 'gc> Cb<'w, 'r, 'gc> {
                     self.w.violate("C17.align", format!("a new {} (length {len}) is at an address not aligned to {}", crate::lay::LAYS[t as usize].name, made.align));
                 }
                 if let Some(e) = &made.roundtrip {
-                    self.w.violate("C17.roundtrip", format!("a new {} (length {len}): {e}", crate::lay::LAYS[t as usize].name));
+                    // a conversion that does not give back the same pointer is C19's as well
+                    self.w.violate_with("C17.roundtrip", &["C19.ptr-eq"], format!("a new {} (length {len}): {e}", crate::lay::LAYS[t as usize].name));
                 }
                 lay_info = Some((t, len as usize, seed, made.size, made.align));
                 if made.align > 16 || made.size == 0 {
